@@ -361,9 +361,9 @@ def main(ck):
                 path, is_method = 'Kz%dz.Inner.%s' % (i, name), True
             else:
                 # a method that follows a nested class body (the qualified-name stack must have been restored)
-                lines, info = siggen.gen_def(rng, eg, name, indent='    ', first='self', depth=depth)
-                lines = ['class Kz%dz:' % i, '    class Inner:', '        class Deeper:', '            x = 1', '        y = 2'] + lines
-                path, is_method = 'Kz%dz.%s' % (i, name), True
+                lines, info = siggen.gen_def(rng, eg, name, indent='        ', first='self', depth=depth)
+                lines = ['class Kz%dz:' % i, '    class Inner:', '        class Deeper:', '            x = 1'] + lines
+                path, is_method = 'Kz%dz.Inner.%s' % (i, name), True
         elif scope == 'closure':
             lines, info = siggen.gen_def(rng, eg, 'inner_%s' % name, indent='    ', depth=depth)
             lines = ['def mk_%s():' % name] + lines + ['    return inner_%s' % name, '%s = mk_%s()' % (name, name)]
